@@ -150,3 +150,21 @@ Proof.
   - reflexivity.
   - split; discriminate.
 Qed.
+
+(** both halves of theorem C01_written_invariant in one statement *)
+Lemma written_invariant_all :
+  (forall I I' : its, wf I -> wf I' -> geq I' I ->
+     (forall z, In z (hlist I') <-> In z (hlist I)) /\
+     geq (fst (its_to_graphs I')) (fst (its_to_graphs I)) /\ geq (snd (its_to_graphs I')) (snd (its_to_graphs I))) /\
+  (forall (sr sp : nat -> nat) (mr mr' mp mp' : rmol),
+     rewritten sr mr mr' -> rewritten sp mp mp' -> rmol_ok mr -> rmol_ok mr' -> rmol_ok mp -> rmol_ok mp' ->
+     wf (graph_of mr) -> wf (graph_of mp) -> wf (graph_of mr') -> wf (graph_of mp') ->
+     let I := its_construct (graph_of mr) (graph_of mp) in
+     let I' := its_construct (graph_of mr') (graph_of mp') in
+     (forall z, In z (hlist I') <-> In z (hlist I)) /\
+     geq (fst (its_to_graphs I')) (fst (its_to_graphs I)) /\ geq (snd (its_to_graphs I')) (snd (its_to_graphs I))).
+Proof.
+  split.
+  - intros I I' W W' E. split; [apply hlist_ext; assumption|apply its_to_graphs_ext; assumption].
+  - exact rewritten_written.
+Qed.
